@@ -68,7 +68,7 @@ Record h5row := mkRow {
    r_prob[.., i_r] = runner_up_probability[i_r] ; r_corr[.., i_r] = runner_up_correlation[i_r].
    room = slots left in the fixed-width row; the unused slots keep -1 / 0.0.
    e_room = what writing beyond the row raises. *)
-Fixpoint write_runners (nodes : list Z) (e_room : Z) (room : nat) (ra : list Z) (rp rc : list rat)
+Fixpoint write_runners (nodes : list Z) (e_room : Z) (room : nat) (ra : list Z) (rp rc : list rat) {struct ra}
   : res (list Z * list rat * list rat) :=
   match ra with
   | [] => Ok (repeat (-1) room, repeat zero room, repeat zero room)
@@ -151,7 +151,7 @@ Definition py_nth {A} (l : list A) (z : Z) : option A :=
   else nth_error l (Z.to_nat z).
 
 (* for i_r in range(n_r): if r_assignment[.., i_r] < 0: break ; append the three values *)
-Fixpoint read_runners (nodes : list Z) (ra : list Z) (rp rc : list rat) : res runners :=
+Fixpoint read_runners (nodes : list Z) (ra : list Z) (rp rc : list rat) {struct ra} : res runners :=
   match ra with
   | [] => Ok (mkRun [] [] [])
   | a :: ra' =>
